@@ -8,6 +8,37 @@ seed = os.path.abspath(sys.argv[1])
 wt = "/tmp/confirm_" + (sys.argv[2] if len(sys.argv) > 2 else os.path.basename(os.path.dirname(seed)) + "_" + os.path.basename(seed))
 env = {k: v for k, v in os.environ.items() if k not in ("GOFLAGS", "GOTOOLCHAIN", "GOPROXY", "GOWORK")}
 env["PATH"] = "/usr/bin:/usr/local/go/bin:" + env.get("PATH", "")
+
+def pkgdir_for_demo(wt, demo_file, hint):
+    """Directory whose package clause matches the demo's (the author's meta may name another)."""
+    import re as _re, os as _os
+    m = _re.search(r"^package (\w+)", open(demo_file).read(), _re.M)
+    if not m:
+        return hint
+    want = m.group(1)
+    if want.endswith("_test"):
+        want = want[:-5]
+    def pk(d):
+        for f in sorted(_os.listdir(d)):
+            if f.endswith(".go") and not f.endswith("_test.go"):
+                mm = _re.search(r"^package (\w+)", open(_os.path.join(d, f)).read(), _re.M)
+                return mm.group(1) if mm else None
+        return None
+    hd = _os.path.join(wt, hint) if hint else None
+    if hd and _os.path.isdir(hd) and pk(hd) == want:
+        return hint
+    best = None
+    for root, dirs, files in _os.walk(wt):
+        if "/.git" in root:
+            continue
+        if any(f.endswith(".go") for f in files) and pk(root) == want:
+            rel = "./" + _os.path.relpath(root, wt)
+            # prefer an ancestor/descendant of the hinted directory
+            score = len(_os.path.commonprefix([rel, hint or ""]))
+            if best is None or score > best[0]:
+                best = (score, rel)
+    return best[1] if best else hint
+
 def run(cmd, cwd):
     r = subprocess.run(cmd, cwd=cwd, shell=True, capture_output=True, text=True, env=env)
     return r.returncode, (r.stdout + r.stderr)
@@ -42,6 +73,8 @@ try:
             # fall back: directory of the first patched file
             f = re.search(r"^\+\+\+ b/(\S+)", open(os.path.join(seed, "patch.diff")).read(), re.M).group(1)
             pkgdir = "./" + os.path.dirname(f)
+        if not os.environ.get("SEED_PKGDIR") and demos:
+            pkgdir = pkgdir_for_demo(wt, demos[0], pkgdir)
         for f in demos:
             shutil.copy(f, os.path.join(wt, pkgdir))
         cmd = f"go test -mod=mod -vet=off -count=1 {race} -run 'Seed' {pkgdir}"
